@@ -246,6 +246,54 @@ def local_obligations():
     return obs
 
 
+def literal_obligations():
+    """aggregate VALUES stored into a field of a struct literal / an item of an array literal that is built in a local,
+    with the fields listed out of declaration order (so a neighbour written earlier must survive the later store)"""
+    obs = []; decls = []
+    aggs = [Array(3, S('u8')), Array(5, S('u8')), Array(7, S('u8')), Opt(S('u16')), Opt(S('i32')), Opt(S('u32')), Struct('Q6', [('x', S('u32')), ('y', S('u16'))]),
+            Struct('Q3', [('x', S('u16')), ('y', S('u8'))]), E1, E3, Err(S('bool'), S('i32')), IN, Opt(S('i64')), Array(2, S('i32'))]
+    for a in aggs:
+        if isinstance(a, Struct) and a.name in ('Q6', 'Q3'):
+            decls.append(a)
+    for i, a in enumerate(aggs):
+        L = Struct('L%d' % i, [('f', a), ('g', S('u8')), ('h', S('u16')), ('k', S('u64'))])
+        decls.append(L)
+        offs, _ = L.offsets()
+        for oi, order in enumerate((['k', 'h', 'g', 'f'], ['g', 'f', 'h', 'k'], ['f', 'g', 'h', 'k'])):
+            name = 'lit_%d_%d' % (i, oi)
+            inits = {'f': 'q^', 'g': 'g', 'h': 'h', 'k': 'k'}
+            src = '%s :: (q: ^%s, g: u8, h: u16, k: u64, out: ^mut %s) { o := %s.{ %s }; out^ = o; }' % (
+                name, a.src(), L.name, L.name, ', '.join('%s = %s' % (n, inits[n]) for n in order))
+
+            def post(ctx, xs, a=a, L=L, offs=offs):
+                src_b, out_b = ctx.bufs
+                goals = [('source unchanged', frame(ctx, src_b, [])), ('nothing outside the destination changed', frame(ctx, out_b, [(0, L.size())]))]
+                for (o, n) in value_bytes(a):
+                    goals.append(('the aggregate field holds the source value', ctx.final_bytes(out_b, offs[0] + o, n) == ctx.init_bytes(src_b, o, n)))
+                goals.append(('the field after the aggregate keeps its value', bytes_eq(ctx, out_b, offs[1], xs[0])))
+                goals.append(('the other fields keep their values', z3.And(bytes_eq(ctx, out_b, offs[2], xs[1]), bytes_eq(ctx, out_b, offs[3], xs[2]))))
+                return goals
+            obs.append(Ob(name, src, [('buf', a, False), ('scalar', 'u8'), ('scalar', 'u16'), ('scalar', 'u64'), ('buf', L, True)], None, post,
+                          {'kind': 'literal-field-store', 'agg': a.src(), 'size_mod_8': a.size() % 8}))
+        # array literal of two aggregate items followed by a local that must survive
+        name = 'alit_%d' % i
+        src = ('%s :: (q: ^%s, r: ^%s, g: u64, out: ^mut [2]%s) -> u64 { g1 := g; arr := %s.[q^, r^]; g2 := g; out^ = arr; g1 ~ g2 ~ g }'
+               % (name, a.src(), a.src(), a.src(), a.src()))
+
+        def apost(ctx, xs, a=a):
+            q_b, r_b, out_b = ctx.bufs
+            st = a.stride()
+            goals = [('neighbouring locals keep their value', ctx.ret == xs[0]), ('sources unchanged', z3.And(frame(ctx, q_b, []), frame(ctx, r_b, []))),
+                     ('nothing outside the destination changed', frame(ctx, out_b, [(0, 2 * st)]))]
+            for (o, n) in value_bytes(a):
+                goals.append(('item 0 holds the first source', ctx.final_bytes(out_b, o, n) == ctx.init_bytes(q_b, o, n)))
+                goals.append(('item 1 holds the second source', ctx.final_bytes(out_b, st + o, n) == ctx.init_bytes(r_b, o, n)))
+            return goals
+        obs.append(Ob(name, src, [('buf', a, False), ('buf', a, False), ('scalar', 'u64'), ('buf', Array(2, a), True)], 'u64', apost,
+                      {'kind': 'array-literal-item-store', 'agg': a.src(), 'size_mod_8': a.size() % 8}))
+    return obs, decls
+
+
 def abi_obligations(sizes, rnd):
     """struct arguments and returns of each size: bytes arrive intact, caller's copy is independent, neighbours untouched"""
     obs = []; decls = []
@@ -303,7 +351,9 @@ def run(chk, tier, seed):
     obs = gen_obligations(structs) + local_obligations()
     abi_obs, abi_decls = abi_obligations(sizes, rnd)
     obs += abi_obs
-    decls = DECLS + structs + abi_decls
+    lit_obs, lit_decls = literal_obligations()
+    obs += lit_obs
+    decls = DECLS + structs + abi_decls + lit_decls
     src, refs = build_source(decls, obs)
     mod, out = clifcheck.compile_module('C02', 'writes', src + refs + 'main :: () { refs(); }\n')
     if mod is None:
